@@ -475,6 +475,15 @@ func checkWrap(prop string, c WrapCase, differential bool) (msg string, bad bool
 				return "block sequence through an io.MultiReader of standard readers differs from bytes.Reader: " + why, true, x, nil
 			}
 		}
+	} else if len(c.Multi) > 0 {
+		// the stream model alone judges the run through the io.MultiReader
+		z, err := runWrapMode(c, false, true)
+		if err != nil {
+			return "", false, x, err
+		}
+		if m, b := z.first(prop); b {
+			return "with an io.MultiReader of standard readers: " + m, true, x, nil
+		}
 	}
 	return "", false, x, nil
 }
